@@ -99,6 +99,44 @@ newline"`)
 		for j := 0; j < 4; j++ {
 			fixedBlock = append(fixedBlock, buildSessionCase(rnd(), "", 6+j*3))
 		}
+		// redefinition histories: what is saved is the last definition
+		fixedBlock = append(fixedBlock,
+			Case{Mode: "code", Kind: "defun", Name: "fx-area", Prior: []string{`(defun fx-area (w) "sq" (* w w))`},
+				Src: `(defun fx-area (w h) "rect" (* w h))`, Probes: []string{"3 4", "2 2"}, Margins: m},
+			Case{Mode: "code", Kind: "defun", Name: "fx-twice", Prior: []string{`(defun fx-twice (a &optional (b 2)) (list a b))`, `(defun fx-twice (a b c) "three" (+ a b c))`},
+				Src: `(defun fx-twice (a &key (k 1)) (* a k))`, Probes: []string{"3", "3 :k 4"}, Margins: m},
+			Case{Mode: "code", Kind: "defmacro", Name: "fx-remac", Prior: []string{`(defmacro fx-remac (a) "one" (list 'list a))`},
+				Src: `(defmacro fx-remac (a b) "two" (list 'list b a))`, Probes: []string{"1 2"}, Margins: m},
+			Case{Mode: "session", Kind: "session", Margins: []int{70}, Items: []Item{
+				{Kind: "fun", Name: "fx-area", Redef: 1, Forms: []string{`(defun fx-area (w) "sq" (* w w))`, `(defun fx-area (w h) "rect" (* w h))`},
+					Probes: []string{"(fx-area 3 4)", "(documentation 'fx-area 'function)"}},
+				{Kind: "macro", Name: "fx-remac", Redef: 1, Forms: []string{`(defmacro fx-remac (a) "one" (list 'list a))`, `(defmacro fx-remac (a b) "two" (list 'list b a))`},
+					Probes: []string{"(fx-remac 1 2)"}},
+				{Kind: "var", Name: "*fx-revar*", Redef: 2, Forms: []string{`(defvar *fx-revar* 1 "first")`, `(defparameter *fx-revar* '(2 b) "second")`, `(setq *fx-revar* "third")`},
+					Probes: []string{"*fx-revar*", "(documentation '*fx-revar* 'variable)"}},
+				{Kind: "flavor", Name: "fx-refl", Redef: 1, Forms: []string{
+					`(defflavor fx-refl ((a 1) (b 2)) () :gettable-instance-variables)`,
+					`(defflavor fx-refl ((a 5) (c "x")) () :gettable-instance-variables :settable-instance-variables (:documentation "again"))`},
+					Probes: []string{"(let ((i (make-instance 'fx-refl))) (list (send i :a) (send i :c) (progn (send i :set-a 7) (send i :a))))", "(send (make-instance 'fx-refl) :b)", "(documentation 'fx-refl 'type)"}},
+				{Kind: "generic", Name: "fx-regf", Redef: 1, Forms: []string{
+					`(defgeneric fx-regf (x))`, `(defmethod fx-regf ((x fixnum)) "first" (list 'first x))`, `(defmethod fx-regf ((x string)) (list 'str x))`,
+					`(defmethod fx-regf ((x fixnum)) "second" (list 'second (* x 2)))`},
+					Probes: []string{"(fx-regf 3)", `(fx-regf "s")`}},
+			}},
+			Case{Mode: "def", Kind: "class", Margins: []int{60}, Items: []Item{{Kind: "class", Name: "fx-recls", Redef: 1, Forms: []string{
+				`(defclass fx-recls () ((a :initarg :a :initform 1) (b :initform 2)) (:documentation "first"))`,
+				`(defclass fx-recls () ((a :initarg :a :initform 5) (c :initarg :c :initform "x")) (:documentation "second"))`},
+				Obj: "(find-class 'fx-recls)", Probes: []string{
+					"(let ((i (make-instance 'fx-recls :c 3))) (list (slot-value i 'a) (slot-value i 'c) (slot-exists-p i 'b)))", "(documentation 'fx-recls 'type)"}}}},
+			Case{Mode: "def", Kind: "flavor", Margins: []int{60}, Items: []Item{{Kind: "flavor", Name: "fx-refl", Redef: 1, Forms: []string{
+				`(defflavor fx-refl ((a 1) (b 2)) () :gettable-instance-variables)`,
+				`(defflavor fx-refl ((a 5) (c "x")) () :gettable-instance-variables :settable-instance-variables (:documentation "again"))`},
+				Obj: "(find-flavor 'fx-refl)", Probes: []string{
+					"(let ((i (make-instance 'fx-refl))) (list (send i :a) (send i :c) (progn (send i :set-a 7) (send i :a))))", "(send (make-instance 'fx-refl) :b)"}}}},
+			Case{Mode: "def", Kind: "generic", Margins: []int{60}, Items: []Item{{Kind: "generic", Name: "fx-regf", Redef: 1, Forms: []string{
+				`(defgeneric fx-regf (x))`, `(defmethod fx-regf ((x fixnum)) "first" (list 'first x))`, `(defmethod fx-regf ((x string)) (list 'str x))`,
+				`(defmethod fx-regf ((x fixnum)) "second" (list 'second (* x 2)))`},
+				Obj: "fx-regf", Probes: []string{"(fx-regf 3)", `(fx-regf "s")`}}}})
 		// a three level chain whose leaf re-declares a variable with the
 		// default of its grandparent, shadowing the parent's
 		base := `(defflavor fx-base ((size 1) (tag "b")) () :gettable-instance-variables :settable-instance-variables :inittable-instance-variables)`
@@ -176,6 +214,9 @@ func execDef(x *fw.Ctx, c Case) {
 	it := c.Items[0]
 	m := c.Margins[0]
 	x.Cover("def:" + c.Kind)
+	if 0 < it.Redef {
+		x.CoverN("redefined:"+c.Kind, it.Redef)
+	}
 	if strings.HasPrefix(it.Info, "inherits:") {
 		x.Cover("flavor-" + it.Info)
 	}
@@ -457,6 +498,9 @@ func execSession(x *fw.Ctx, c Case) {
 	for i, it := range c.Items {
 		if !rejected[i] {
 			x.Cover("item:" + it.Kind)
+			if 0 < it.Redef {
+				x.CoverN("redefined:"+it.Kind, it.Redef)
+			}
 			if strings.HasPrefix(it.Info, "inherits:") {
 				x.Cover("flavor-" + it.Info)
 			}
